@@ -473,6 +473,7 @@ thread_local! {
 
 /// execute one request line on the real code; returns the canonical answer
 pub fn exec(op: &str, out: &mut Out) -> String {
+    let _crumb = crate::common::crumb::guard(op);
     let w: Vec<&str> = op.split(' ').filter(|s| !s.is_empty()).collect();
     if w.len() < 2 || w[0] != "cmd" {
         return "bad-op".into();
